@@ -113,8 +113,8 @@ class Tokenizer:
             # empty params
             return self._stack.pop()
 
-        assert start is not None
-        assert end is not None
+        if start is None or end is None:
+            raise self.syntax_error("empty macro argument", tok)
         if not string.strip():
             return TokenInfo(Token.WS, string, start, end, line)
         return TokenInfo(Token.MACRO_PARAM, string, start, end, line)
